@@ -93,6 +93,9 @@ class Flow:
             return self.keys_of(e.args[0])
         if isinstance(e, ast.Call) and isinstance(e.func, ast.Attribute) and e.func.attr == 'keys' and not e.args:
             return self.as_dict(e.func.value)
+        if isinstance(e, (ast.ListComp, ast.GeneratorExp)):
+            v = self.ev(e)
+            return v if isinstance(v, DictAbs) and v.kind == 'keys' else None
         return self.as_dict(e)
 
     def items_of(self, e: ast.AST) -> Optional[DictAbs]:
@@ -126,9 +129,11 @@ class Flow:
             if src is not None and isinstance(g.target, ast.Name):
                 kvar = g.target.id
                 x = g.iter
-                while isinstance(x, ast.Call):
+                while isinstance(x, ast.Call) and (call_name(x) in ('list', 'tuple') or isinstance(x.func, ast.Attribute)):
                     x = x.args[0] if call_name(x) in ('list', 'tuple') else x.func.value
                 src_expr = x
+                if getattr(src, 'keys_src', None):
+                    src_expr = ast.parse(src.keys_src, mode='eval').body
         if kvar is None:
             # entries drawn from something that is not a known mapping
             kv = norm(g.target)
@@ -160,6 +165,21 @@ class Flow:
             raise Unsupported('dict display')
         if isinstance(e, ast.DictComp):
             return self.comp('dict', e.key, e.value, e.generators)
+        if isinstance(e, (ast.ListComp, ast.GeneratorExp)) and len(e.generators) == 1 and isinstance(e.elt, ast.Name) \
+                and isinstance(e.generators[0].target, ast.Name) and e.elt.id == e.generators[0].target.id and not e.generators[0].is_async:
+            # a (filtered) list of the keys of a known mapping: `[k for k in m if c(k)]` - a view of m's entries restricted to c
+            g = e.generators[0]
+            src = self.keys_of(g.iter)
+            if src is not None and not src.consts:
+                cond: ast.AST = TRUE
+                for c in g.ifs:
+                    cond = _and(cond, _kname(c, g.target.id))
+                out = DictAbs('keys', [Part(p_.source, p_.key, p_.value, _and(p_.cond, cond)) for p_ in src.parts])
+                x = g.iter
+                while isinstance(x, ast.Call):
+                    x = x.args[0] if call_name(x) in ('list', 'tuple') else x.func.value
+                out.keys_src = getattr(src, 'keys_src', None) or norm(x)
+                return out
         if isinstance(e, ast.Call):
             cn = call_name(e)
             if isinstance(e.func, ast.Attribute) and e.func.attr == 'copy' and not e.args:
@@ -226,6 +246,8 @@ class Flow:
                 while isinstance(x, ast.Call):
                     x = x.args[0] if call_name(x) in ('list', 'tuple') else x.func.value
                 src_expr = x
+                if getattr(src, 'keys_src', None):
+                    src_expr = ast.parse(src.keys_src, mode='eval').body
         if kvar is None or src is None:
             raise Unsupported('loop over %s' % norm(st.iter)[:50])
         if src.consts or len(src.parts) != 1:
